@@ -80,11 +80,9 @@ impl FromStr for PmtreeConfig {
         };
         let use_compression = config["use_compression"].as_bool();
 
-        if temporary.is_some()
-            && path.is_some()
-            && temporary.unwrap()
-            && path.as_ref().unwrap().exists()
-        {
+        // `temporary` left out means temporary (see `get_tmp`): an existing location must not be
+        // taken over as temporary in that case either, it would be removed when the config is dropped
+        if temporary.unwrap_or(get_tmp()) && path.is_some() && path.as_ref().unwrap().exists() {
             return Err(Report::msg(format!(
                 "Path {:?} already exists, cannot use temporary",
                 path.unwrap()
